@@ -222,6 +222,59 @@ def rollout(sx, shape, csel, start, cap):
             sx.prove(len(steps) == 0, 'absorbing-start-gives-the-empty-history')
 
 
+class _MenuRng:
+    """stands in for numpy's Generator in FSCBoundedPolicyIteration.train_on: uniform(lo, hi, size) fills the array with rationals from a
+    fixed menu inside [lo, hi] (which controller is sampled is irrelevant for what the learner REPORTS about it)"""
+    MENU = [F(1), F(3, 2), F(2), F(5, 4), F(7, 4), F(9, 8), F(11, 8)]
+
+    def __init__(self, seed=None):
+        self.k = 0
+
+    def uniform(self, lo, hi, size=None):
+        import numpy as rnp
+        from symx.symnp import SymArray
+        shape = size if isinstance(size, tuple) else (size,)
+        out = rnp.empty(shape, dtype=object)
+        for idx in rnp.ndindex(*shape):
+            out[idx] = self.MENU[self.k % len(self.MENU)]
+            self.k += 1
+        return SymArray(out)
+
+
+def bpi_reported_value(sx, shape, n):
+    """bounded policy iteration with an iteration budget of 0 (no linear program is solved): the value it reports is the initial-
+    distribution expectation of the returned table at the returned controller's initial node, and that node is a best one"""
+    sh = PSH[shape]
+    L = sh.slabels
+    rew = {(s, a, ns): sx.real(f"r_{s}_{a}_{ns}", -1, 1) for s in range(sh.S) for a in sh.avail[s] for ns in sh.rows[(s, a)]}
+    from msdm.algorithms.fscboundedpolicyiteration import FSCBoundedPolicyIteration
+    c = sx.const
+    with facade(sx):
+        pomdp = build_pomdp(sx, sh, rew)
+        sl = list(pomdp.state_list)
+        if sx.sym:
+            class _R:
+                default_rng = staticmethod(lambda seed=None: _MenuRng(seed))
+            stubs.NP.random = _R()
+        try:
+            with sx.must_not_raise('train_on'):
+                res = FSCBoundedPolicyIteration(controller_state_count=n, iterations=0, seed=5).train_on(pomdp)
+        finally:
+            if sx.sym:
+                try:
+                    del stubs.NP.random
+                except AttributeError:
+                    pass
+        V = res.state_controller_value
+        iota = list(res.policy.initial_state_dist)
+        sx.prove_eq(ssum(iota), 1, 'initial-node-distribution-normalised')
+        s0 = {sl.index(L[s]): c(p) for s, p in sh.s0.items()}
+        node_val = [ssum(p * V[k, si] for si, p in s0.items()) for k in range(n)]
+        sx.prove_eq(res.value, ssum(iota[k] * node_val[k] for k in range(n)), 'reported-value-is-evaluation-at-the-initial-node-and-distribution')
+        for k in range(n):
+            sx.prove_le(node_val[k], res.value, f'initial-node-is-a-best-node[{k}]', tol=F(1, 10**9))
+
+
 def jobs(tier):
     o = dict(timeout_ms=60000, budget_s=900, max_paths=5000)
     for i, sh in enumerate(PSH):
@@ -234,6 +287,9 @@ def jobs(tier):
         for st in sorted(set([0] + list(sh.absorb))):
             for k in (0, 2):
                 yield ('rollout', dict(shape=i, csel=k, start=st, cap=2), o)
+        if len([p for p in sh.s0.values() if p > 0]) >= 2:
+            for n in (2, 3):
+                yield ('bpi_reported_value', dict(shape=i, n=n), o)
         for n in (1, 2):
             for node in range(n):
                 yield ('lp_construction', dict(shape=i, n=n, node=node), o)
